@@ -186,6 +186,7 @@ static void load_and_check(CWorld &w, const LoadFaults &lf, const std::string &c
 	    e = errno;
 	    if (rc != 0 && !c.violated) check_failure(w, "vnadata_load", e, ctxmsg);
 	    lc.done();
+	    c11_discipline(c, "vnadata_load", "vnadata_load", rc != 0, e, w.cb, C11_MAY);
 	}
 	if (!c.violated && rc != 0) {
 	    // destination still usable: query, re-initialise, free
@@ -260,6 +261,7 @@ static void load_and_check(CWorld &w, const LoadFaults &lf, const std::string &c
 	    e = errno;
 	    if (!vcp && !c.violated) check_failure(w, "vnacal_load", e, ctxmsg);
 	    lc.done();
+	    c11_discipline(c, "vnacal_load", "vnacal_load", vcp == nullptr, e, w.cb, C11_MUST);
 	}
 	if (!c.violated && !vcp && ledger_live() != live_before) { check_ledger_empty(c, ("failed vnacal_load left allocations behind (" + ctxmsg + ")").c_str()); }
 	if (!c.violated && vcp) {
@@ -303,6 +305,7 @@ static void load_and_check(CWorld &w, const LoadFaults &lf, const std::string &c
 	    e = errno;
 	    if (rc != 0 && !c.violated) check_failure(w, "vnaproperty_import_yaml", e, ctxmsg);
 	    lc.done();
+	    c11_discipline(c, "vnaproperty_import_yaml", "vnaproperty_import_yaml", rc != 0, e, w.cb, C11_MUST);
 	}
 	if (!c.violated && rc == 0) {
 	    c.count("probe.accepted");
@@ -465,6 +468,7 @@ Plan corrupt_gen(const std::string &check, const std::string &tier, uint64_t see
     Plan plan;
     bool enumerate = check.find("enum") != std::string::npos;
     plan.cfg["callback"] = rng.chance(0.8) ? 1 : 0;
+    if (check.compare(0, 3, "C11") == 0) plan.cfg["c11"] = 1;
     auto mk = [](const char *k, std::initializer_list<long> i) { Op o; o.k = k; o.i = i; return o; };
     // corpus file
     int kind = (int)rng.below(13);
